@@ -309,6 +309,25 @@ def timer_clash(ops):
     return any(l in dls for l in limits)
 
 
+DRAIN_ADV = 800 * 1000 * 1000 * 1000 + 1      # the instant jump that opens a drain epilogue (value used nowhere else)
+
+
+def with_drain(ops, pulls=2):
+    """Appends a drain: every lease is left to run out (the longest ack deadline a case uses is 700 s), then every stream is read
+    and every subscription named in the case is pulled until an empty answer, in batches of at most 1000."""
+    subs, streams = [], []
+    for o in ops:
+        t = o.split(" ")
+        if t[0] == "CS" and len(t) > 1 and t[1] not in subs:
+            subs.append(t[1])
+        if t[0] == "SO" and t[1] not in streams:
+            streams.append(t[1])
+    out = list(ops) + ["ADV %d" % DRAIN_ADV] + ["SR " + s for s in streams]
+    for sn in subs:
+        out += ["PULL %s 1000 1" % sn] * pulls
+    return out
+
+
 W_DATA = {"PUB": 8, "PULL": 8, "ACK": 5, "NACK": 3, "MOD": 4, "ADV": 6, "STATS": 3}
 W_CONTROL = {"CT": 4, "GT": 2, "DT": 3, "CS": 5, "GS": 3, "DS": 3, "LT": 2, "LS": 2, "LTS": 3, "REG": 1}
 W_STREAM = {"SO": 3, "SS": 5, "SR": 4, "SC": 1}
@@ -478,7 +497,7 @@ def paging_walk_cases(counts, sizes, seed=0, prefix="pg"):
 
 # ---------------------------------------------------------------- batch limits (C15)
 
-def capacity_cases(backlogs, maxes, prefix="cap"):
+def capacity_cases(backlogs, maxes, prefix="cap", drain=False):
     T, Sn = hx(tname("p", "t")), hx(sname("p", "s"))
     cases = []
     for b in backlogs:
@@ -490,6 +509,8 @@ def capacity_cases(backlogs, maxes, prefix="cap"):
                 ops.append("PUBN %s %d 78" % (T, k))
                 left -= k
             ops += ["STATS " + Sn, "PULL %s %d 1" % (Sn, m), "STATS " + Sn, "PULL %s %d 1" % (Sn, m), "STATS " + Sn]
+            if drain:
+                ops = with_drain(ops, pulls=b // 1000 + 2)
             cases.append(("%s-b%d-m%d" % (prefix, b, m), ops))
     return cases
 
@@ -736,10 +757,14 @@ def concurrent_publish_cases(seeds, prefix="cp"):
         ops = ["SEED %d" % seed, "CT " + T, "CS %s %s 10 ~" % (S1, T), "CS %s %s 10 ~" % (S2, T),
                "SO 901 %s %d 0 10" % (S2, rng.choice([1, 2, 10])), "SR 901"]
         npub = rng.randrange(2, 7)
+        big = seed % 5 == 4           # requests larger than any internal batch limit
         for i in range(npub):
-            k = rng.randrange(1, 4)
-            msgs = " ".join("%s 0" % hx("p%d-%d" % (i, j)) for j in range(k))
-            ops.append("BG %d PUB %s %d %s" % (910 + i, T, k, msgs))
+            if big and i < 3:
+                ops.append("BG %d PUBN %s %d %s" % (910 + i, T, rng.choice([1001, 1100, 1300]), hx("b%d" % i)))
+            else:
+                k = rng.randrange(1, 4)
+                msgs = " ".join("%s 0" % hx("p%d-%d" % (i, j)) for j in range(k))
+                ops.append("BG %d PUB %s %d %s" % (910 + i, T, k, msgs))
             if rng.random() < 0.3:
                 ops.append("YIELD %d" % rng.randrange(1, 6))
         ops += ["Q"] + ["JOIN %d" % (910 + i) for i in range(npub)]
@@ -880,4 +905,57 @@ def racing_namespace_cases(seeds, prefix="rn"):
         ops += ["JOIN %d" % i for i in ids]
         ops += ["GS " + Sn, "GS " + S2, "GT " + T, "GT " + T2, "LS %s 0 -" % hx("projects/p"), "LT %s 0 -" % hx("projects/p")]
         cases.append(("%s%d" % (prefix, seed), ops))
+    return cases
+
+
+# ---------------------------------------------------------------- id lists mixing live / stale / unknown / duplicate (C02, C05)
+
+def id_list_cases(prefix="il"):
+    """Three leased messages, the first already acknowledged (stale id); then one Acknowledge / nack / modify /
+    streaming ack whose id list is every sequence of length 1..3 over {stale, live-1, live-2, unknown, odd spelling
+    of live-1}, followed by STATS, expiry and a drain."""
+    import itertools
+    T, Sn = hx(tname("p", "t")), hx(sname("p", "s"))
+    syms = {"stale": "^0", "live1": "^1", "live2": "^2", "unknown": hx("77"), "odd1": hx("+2")}
+    cases = []
+    for r in (1, 2, 3):
+        for combo in itertools.product(list(syms), repeat=r):
+            ids = " ".join(syms[c] for c in combo)
+            for kind in ("ack", "nack", "mod", "sack"):
+                if kind != "ack" and r == 3 and combo[0] == combo[1] == combo[2]:
+                    continue
+                ops = ["SEED 1", "CT " + T, "CS %s %s 10 ~" % (Sn, T), "PUB %s 3 61 0 62 0 63 0" % T]
+                if kind == "sack":
+                    ops += ["SO 1 %s 10 0 10" % Sn, "SR 1", "SS 1 - 0 0 1 ^0 0 0", "STATS " + Sn,
+                            "SS 1 - 0 0 %d %s 0 0" % (r, ids), "SR 1"]
+                else:
+                    ops += ["PULL %s 10 1" % Sn, "ACK %s 1 ^0" % Sn, "STATS " + Sn]
+                    if kind == "ack":
+                        ops.append("ACK %s %d %s" % (Sn, r, ids))
+                    elif kind == "nack":
+                        ops.append("MOD %s 0 %d %s" % (Sn, r, ids))
+                    else:
+                        ops.append("MOD %s 30 %d %s" % (Sn, r, ids))
+                ops += ["STATS " + Sn, "PULL %s 10 1" % Sn, "ADV %d" % (10200 * MS), "STATS " + Sn, "PULL %s 10 1" % Sn,
+                        "ADV %d" % (20000 * MS), "STATS " + Sn, "PULL %s 10 1" % Sn]
+                if kind == "sack":
+                    ops.append("SR 1")
+                cases.append(("%s-%s-%s" % (prefix, kind, "_".join(combo)), ops))
+    return cases
+
+
+def cancel_woken_cases(ks, prefix="cw"):
+    """Two blocked Pulls A (older) and B; a Publish wakes A; A is cancelled k scheduler yields after the Publish was
+    started (k sweeps the whole wake-up: before A runs, while its pull request is queued, after it was answered)."""
+    T, Sn = hx(tname("p", "t")), hx(sname("p", "s"))
+    cases = []
+    for ngs in (0, 20):
+        for k in ks:
+            ops = ["SEED %d" % (k % 7), "CT " + T, "CS %s %s 10 ~" % (Sn, T),
+                   "BG 900 PULL %s 1 0" % Sn, "Q", "BG 901 PULL %s 1 0" % Sn, "Q",
+                   "BG 902 PUB %s 1 61 0" % T]
+            ops += ["BG %d GS %s" % (910 + i, Sn) for i in range(ngs)]
+            ops += ["YIELD %d" % k, "CANCEL 900", "Q", "STATS " + Sn, "JOIN 901", "STATS " + Sn,
+                    "ADV %d" % (10200 * MS), "STATS " + Sn, "JOIN 901", "STATS " + Sn, "JOIN 900"]
+            cases.append(("%s-g%d-k%d" % (prefix, ngs, k), ops))
     return cases
